@@ -1,0 +1,97 @@
+//go:build verif
+
+// Contracts for package phase5 (comment-only; compiled to nothing).
+
+package phase5
+
+// routesOK: every route has an edge, at least two non-nil route nodes, and routes of different indices have different edges
+//@ spec routesOK(routes []routableEdge) bool =
+//@   (forall i int :: 0 <= i && i < len(routes) ==> routes[i].Edge != nil && routes[i].From != nil && routes[i].To != nil && len(routes[i].ns) >= 2)
+//@   && (forall i int, j int :: 0 <= i && i < len(routes) && 0 <= j && j < len(routes[i].ns) ==> routes[i].ns[j] != nil)
+//@   && (forall i int, j int :: 0 <= i && i < j && j < len(routes) ==> routes[i].Edge != routes[j].Edge)
+
+// bottom-centre / top-centre anchors of a node
+//@ spec startX(n *Node) float64 = n.X + n.W / 2.0
+//@ spec startY(n *Node) float64 = n.Y + n.H
+//@ spec endY(n *Node) float64 = n.Y
+
+//@ func execStraightRouting
+//@   requires routesOK(routes)
+//@   modifies Edge.Points, Elems[[2]float64], alloc
+//@   ensures[two] forall i int :: 0 <= i && i < len(routes) ==> len(routes[i].Points) == 2
+//@   ensures[ends] forall i int :: 0 <= i && i < len(routes) && routes[i].From.Layer != routes[i].To.Layer ==>
+//@       routes[i].Points[0][0] == startX(routes[i].ns[0]) && routes[i].Points[0][1] == startY(routes[i].ns[0])
+//@       && routes[i].Points[1][0] == startX(routes[i].ns[len(routes[i].ns)-1]) && routes[i].Points[1][1] == endY(routes[i].ns[len(routes[i].ns)-1])
+//@   loop range(routes)#1 index c
+//@     invariant forall i int :: 0 <= i && i < c ==> len(routes[i].Points) == 2 && allocatedArr(routes[i].Points)
+//@     invariant forall i int :: 0 <= i && i < c && routes[i].From.Layer != routes[i].To.Layer ==>
+//@       routes[i].Points[0][0] == startX(routes[i].ns[0]) && routes[i].Points[0][1] == startY(routes[i].ns[0])
+//@       && routes[i].Points[1][0] == startX(routes[i].ns[len(routes[i].ns)-1]) && routes[i].Points[1][1] == endY(routes[i].ns[len(routes[i].ns)-1])
+
+// bend point of an inner route node: its horizontal centre, the vertical middle of its band
+//@ spec bendX(n *Node) float64 = n.X + n.W / 2.0
+//@ spec bendY(g *DGraph, n *Node) float64 = n.Y + g.Layers[n.Layer].H / 2.0
+
+// polyDone(g, r): the polyline of a non-flat route r is complete
+//@ spec polyDone(g *DGraph, r routableEdge) bool =
+//@   len(r.Points) == len(r.ns)
+//@   && r.Points[0][0] == startX(r.ns[0]) && r.Points[0][1] == startY(r.ns[0])
+//@   && r.Points[len(r.ns)-1][0] == startX(r.ns[len(r.ns)-1]) && r.Points[len(r.ns)-1][1] == endY(r.ns[len(r.ns)-1])
+//@   && (forall t int :: 0 < t && t < len(r.ns) - 1 ==> r.Points[t][0] == bendX(r.ns[t]) && r.Points[t][1] == bendY(g, r.ns[t]))
+
+//@ func execPolylineRouting
+//@   requires g != nil && routesOK(routes)
+//@   requires forall i int :: 0 <= i && i < len(routes) ==> routes[i].Points == nil
+//@   modifies Edge.Points, Elems[[2]float64], alloc
+//@   ensures[poly] forall i int :: 0 <= i && i < len(routes) && routes[i].From.Layer != routes[i].To.Layer ==> polyDone(g, routes[i])
+//@   loop range(routes)#1 index c
+//@     invariant forall i int :: c <= i && i < len(routes) ==> routes[i].Points == nil
+//@     invariant forall i int :: 0 <= i && i < c ==> allocatedArr(routes[i].Points)
+//@     invariant forall i int :: 0 <= i && i < c && routes[i].From.Layer != routes[i].To.Layer ==> polyDone(g, routes[i])
+//@   loop range(r.ns[1:len(r.ns)-1])#1 index j
+//@     invariant forall i int :: c < i && i < len(routes) ==> routes[i].Points == nil
+//@     invariant forall i int :: 0 <= i && i < c ==> allocatedArr(routes[i].Points) && arr(routes[i].Points) != arr(r.Points)
+//@     invariant forall i int :: 0 <= i && i < c && routes[i].From.Layer != routes[i].To.Layer ==> polyDone(g, routes[i])
+//@     invariant allocatedArr(r.Points) && len(r.Points) == 1 + j
+//@     invariant r.Points[0][0] == startX(r.ns[0]) && r.Points[0][1] == startY(r.ns[0])
+//@     invariant forall t int :: 0 < t && t <= j ==> r.Points[t][0] == bendX(r.ns[t]) && r.Points[t][1] == bendY(g, r.ns[t])
+
+// orthoRouteOK: shape the orthogonal router relies on - the route descends one band per step, inner nodes are
+// zero-size virtual nodes, every route node sits at the y of its band, route ends are the edge's ends
+//@ spec orthoRouteOK(g *DGraph, r routableEdge, ls float64) bool =
+//@   (forall j int :: 0 <= j && j < len(r.ns) ==> 0 <= r.ns[j].Layer && r.ns[j].Layer < len(g.Layers) && g.Layers[r.ns[j].Layer] != nil
+//@       && r.ns[j].Y == bandY(g, r.ns[j].Layer, ls) && r.ns[j].H <= g.Layers[r.ns[j].Layer].H)
+//@   && (forall j int :: 0 <= j && j < len(r.ns) - 1 ==> r.ns[j+1].Layer == r.ns[j].Layer + 1)
+//@   && (forall j int :: 0 < j && j < len(r.ns) - 1 ==> r.ns[j].IsVirtual && r.ns[j].W == 0.0 && r.ns[j].H == 0.0)
+//@   && !r.ns[0].IsVirtual && !r.ns[len(r.ns)-1].IsVirtual
+//@   && ((r.ns[0] == r.From && r.ns[len(r.ns)-1] == r.To) || (r.ns[0] == r.To && r.ns[len(r.ns)-1] == r.From))
+//@   && r.From.Layer != r.To.Layer
+
+//@ spec axisAligned(p [2]float64, q [2]float64) bool = p[0] == q[0] || p[1] == q[1]
+
+// orthoDone(r): all segments horizontal or vertical, ends at the anchors
+//@ spec orthoDone(r routableEdge) bool =
+//@   len(r.Points) >= 2
+//@   && (forall t int :: 0 <= t && t < len(r.Points) - 1 ==> axisAligned(r.Points[t], r.Points[t+1]))
+//@   && r.Points[0][0] == startX(r.ns[0]) && r.Points[0][1] == startY(r.ns[0])
+//@   && r.Points[len(r.Points)-1][0] == startX(r.ns[len(r.ns)-1]) && r.Points[len(r.Points)-1][1] == endY(r.ns[len(r.ns)-1])
+
+//@ func execOrthoRouting
+//@   requires g != nil && routesOK(routes) && params.LayerSpacing >= 0.0
+//@   requires forall i int :: 0 <= i && i < len(routes) ==> routes[i].Points == nil
+//@   requires forall i int :: 0 <= i && i < len(routes) ==> orthoRouteOK(g, routes[i], params.LayerSpacing)
+//@   modifies Edge.Points, Elems[[2]float64], alloc
+//@   ensures[ortho] forall i int :: 0 <= i && i < len(routes) ==> orthoDone(routes[i])
+//@   loop range(routes)#1 index c
+//@     invariant forall i int :: c <= i && i < len(routes) ==> routes[i].Points == nil
+//@     invariant forall i int :: 0 <= i && i < c ==> allocatedArr(routes[i].Points)
+//@     invariant forall i int :: 0 <= i && i < c ==> orthoDone(routes[i])
+//@   loop for(i<len(r.ns))#1
+//@     invariant 1 <= i && i <= len(r.ns)
+//@     invariant forall k int :: c < k && k < len(routes) ==> routes[k].Points == nil
+//@     invariant forall k int :: 0 <= k && k < c ==> allocatedArr(routes[k].Points) && arr(routes[k].Points) != arr(r.Points)
+//@     invariant forall k int :: 0 <= k && k < c ==> orthoDone(routes[k])
+//@     invariant len(r.Points) == 4 * (i - 1) && (i > 1 ==> allocatedArr(r.Points)) && (i == 1 ==> r.Points == nil)
+//@     invariant forall t int :: 0 <= t && t < len(r.Points) - 1 ==> axisAligned(r.Points[t], r.Points[t+1])
+//@     invariant i > 1 ==> r.Points[0][0] == startX(r.ns[0]) && r.Points[0][1] == startY(r.ns[0])
+//@     invariant i > 1 ==> r.Points[len(r.Points)-1][0] == startX(r.ns[i-1]) && r.Points[len(r.Points)-1][1] == endY(r.ns[i-1])
